@@ -1,10 +1,12 @@
 import Acv.Lemmas.ProfileParser
+import Acv.Lemmas.KeyTags
 import Acv.Props.C07
 /-!
 # Properties of the profile parser model (`Acv.Model.ProfileParser`)
 
 1. `get_is_first_match`, `get_perm` — `Yaml.Get`;
 2. `validation_key_order` — the order of the keys of a validation does not matter;
+   `validation_key_tags`, `profile_key_tags` — nor do the tags of mapping keys (plain `1001:` or quoted `"1001":`);
 3. `precedence_*` — which key of a validation decides its meaning;
 4. `variables_fresh` — the variables of one validation are pairwise distinct;
 5. `negate_negate`, `negate_no_negated_connective` — De Morgan push-down;
@@ -151,6 +153,52 @@ theorem key_order_under_connective {k : String} (hk : k = "and" ∨ k = "or")
   induction xs with
   | nil => exact ⟨SimAll.perm p h, ListRel.refl SimAll.refl zs⟩
   | cons x xs ih => exact ⟨SimAll.refl x, ih⟩
+
+/-! ## 2b. Tags of mapping keys
+
+`Yaml.Get` compares the text of a scalar key and `GetMapKeys` returns the text of the keys; the tag of a key
+(`!!int` for a plain `1001:`, `!!str` for a quoted `"1001":`, `!!bool` for `true:` …) is never read.
+`Y.retagKeys f` rewrites the tag of EVERY scalar in key position, at every depth, to `f oldTag text`, and
+leaves the tags of all values alone (the names listed under `violation` / `warning` / `info` are values: they
+must be `!!str` and are not touched). -/
+
+/-- Re-tagging the keys of a validation, at every depth (including the keys inside `rego`, `in`, … values),
+changes nothing: same rule tree, same variables, same message, or the same error; for every budget. -/
+theorem validation_key_tags (f : String → String → String) (y : Y) (fuel : Nat) (name level : String) :
+    parseExpression fuel name y level = parseExpression fuel name (y.retagKeys f) level :=
+  (parseExpression_retagKeys f fuel name y level).symm
+
+/-- the same for an expression value at any position -/
+theorem expression_key_tags (f : String → String → String) (y : Y) (fuel : Nat) (var : String) (c : Nat) :
+    pev fuel var y c = pev fuel var (y.retagKeys f) c :=
+  (pev_retagKeys f fuel var y c).symm
+
+/-- **The whole profile**: name, description, prefixes (`GetMapKeys` returns the key texts), the three levels
+and all rule trees are the same, or the error is the same. -/
+theorem profile_key_tags (f : String → String → String) (doc : Y) :
+    parseProfile doc = parseProfile (doc.retagKeys f) :=
+  (parseProfile_retagKeys f doc).symm
+
+/-- … also with an explicit budget -/
+theorem profileWith_key_tags (f : String → String → String) (fuel : Nat) (doc : Y) :
+    parseProfileWith fuel doc = parseProfileWith fuel (doc.retagKeys f) :=
+  (parseProfileWith_retagKeys f fuel doc).symm
+
+/-- key order and key tags together: two validations that are similar after (possibly different) re-taggings
+of their keys — e.g. after normalising every key tag with `fun _ _ => ""` — parse alike -/
+theorem validation_key_order_tags (f g : String → String → String) {y y' : Y}
+    (h : SimAll (y.retagKeys f) (y'.retagKeys g)) (fuel : Nat) (name level : String) :
+    parseExpression fuel name y level = parseExpression fuel name y' level := by
+  rw [validation_key_tags f y, validation_key_tags g y']
+  exact validation_key_order h fuel name level
+
+/-- `SimAll` itself is finer than the parser here: it compares the values the parser does not parse
+recursively (`rego`, `in`, …) with `=`, so it sees re-tagged keys INSIDE such values (`not_simAll_retagKeys`).
+What holds of `SimAll` is `simAll_retagKeys_partial`: `y.retagSkel f .expr` re-tags the keys everywhere except
+inside those values.  Through `validation_key_order` it gives a second proof of that part of `validation_key_tags`. -/
+theorem validation_key_tags_partial (f : String → String → String) (y : Y) (fuel : Nat) (name level : String) :
+    parseExpression fuel name y level = parseExpression fuel name (y.retagSkel f .expr) level :=
+  validation_key_order (simAll_retagKeys_partial f y) fuel name level
 
 /-! ## 3. Precedence of the keys of an expression -/
 
@@ -622,6 +670,40 @@ example :
       = some [("ex.b", "y"), ("ex.a", "z")] :=
   ⟨by rfl, by rfl⟩
 
+/-- key tags: the validation `1001` written with a plain (`!!int`) key, `propertyConstraints` and the path with
+odd key tags; re-tagging every key to `!!str` gives a syntactically different tree … -/
+private def t5 : Y := .map [(s "profile", s "p"), (s "violation", .seq [s "1001"]),
+  (s "validations", .map [(i "1001", .map [(s "targetClass", s "ex.T"),
+     (.scalar "!!x" "propertyConstraints", .map [(.scalar "!!null" "ex.p", .map [(s "minCount", i "1")])])])])]
+private def t5' : Y := .map [(s "profile", s "p"), (s "violation", .seq [s "1001"]),
+  (s "validations", .map [(s "1001", .map [(s "targetClass", s "ex.T"),
+     (s "propertyConstraints", .map [(s "ex.p", .map [(s "minCount", i "1")])])])])]
+
+example : t5.retagKeys (fun _ _ => "!!str") = t5' := by
+  simp [t5, t5', s, i, Y.retagKeyPos]
+example : t5.retagKeys (fun _ _ => "!!str") ≠ t5 := by
+  simp [t5, s, i, Y.retagKeyPos]
+/-- … the value tags are kept (`violation: ["1001"]` stays `!!str`, `minCount: 1` stays `!!int`) … -/
+example : (t5.retagKeys (fun _ _ => "!!str")).get "violation" = some (.seq [s "1001"]) := by
+  simp [t5, s, i, Y.retagKeyPos, Y.get, getEntries, Y.isKey]
+/-- … and both parse to the same profile with one rule (not to an error) -/
+example : parseProfile t5 = parseProfile (t5.retagKeys (fun _ _ => "!!str")) := profile_key_tags _ t5
+example : parseProfile t5 = parseProfile t5' := by rfl
+private def r5 : PRule := .top "1001" "violation" "ex.T" {name := "x"} false "Validation error" []
+  (.and false [.atom false "x" ⟨"ex.p", "ex.p"⟩ (.count "minCount" 0 1 1)])
+example : parseProfile t5 = .ok { name := "p", description := none, customRego := none, prefixes := [], violation := [r5], warning := [], info := [] } := by rfl
+/-- the keys inside a `rego` mapping (where `SimAll` fails, `not_simAll_retagKeys`): same rule for every budget -/
+example (fuel : Nat) (var : String) (c : Nat) :
+    pev fuel var (.map [(s "rego", .map [(s "code", s "c")])]) c =
+      pev fuel var (.map [(.scalar "!!x" "rego", .map [(.scalar "!!x" "code", s "c")])]) c := by
+  have := expression_key_tags (fun _ _ => "!!x") (.map [(s "rego", .map [(s "code", s "c")])]) fuel var c
+  simpa [s, Y.retagKeyPos] using this
+/-- re-tagging a VALUE is visible: a level entry tagged `!!int` is not a string and is skipped -/
+example : parseProfile (.map [(s "profile", s "p"), (s "violation", .seq [i "1001"]),
+    (s "validations", .map [(i "1001", .map [(s "targetClass", s "ex.T"), (s "propertyConstraints", .map [])])])]) =
+    .ok { name := "p", description := none, customRego := none, prefixes := [], violation := [], warning := [],
+          info := [] } := by rfl
+
 /-- errors -/
 example : ∃ e, parseProfile (s "just a string") = .error e := ⟨_, rfl⟩
 example : ∃ e, parseProfile (.map [(s "profile", s "p")]) = .error e := ⟨_, rfl⟩
@@ -643,6 +725,17 @@ end Acv.ProfileParser
 #print axioms Acv.ProfileParser.key_order_under
 #print axioms Acv.ProfileParser.key_order_under_connective
 #print axioms Acv.ProfileParser.expression_key_order
+#print axioms Acv.ProfileParser.validation_key_tags
+#print axioms Acv.ProfileParser.expression_key_tags
+#print axioms Acv.ProfileParser.profile_key_tags
+#print axioms Acv.ProfileParser.profileWith_key_tags
+#print axioms Acv.ProfileParser.validation_key_order_tags
+#print axioms Acv.ProfileParser.validation_key_tags_partial
+#print axioms Acv.PP.simAll_retagKeys_partial
+#print axioms Acv.PP.not_simAll_retagKeys
+#print axioms Acv.PP.pev_retagKeys
+#print axioms Acv.PP.parseProfile_retagKeys
+#print axioms Acv.PP.depth_retagKeys
 #print axioms Acv.ProfileParser.precedence
 #print axioms Acv.ProfileParser.precedence_propertyConstraints
 #print axioms Acv.ProfileParser.precedence_rego
